@@ -384,6 +384,12 @@ pub struct Txn {
     /// (1 = Idle, 2 = Rxing): it declined the request
     #[serde(default)]
     pub nb_tx_declined: u8,
+    /// async (stub radio): the application abandons the operation: the `join()` / `send()` future is dropped at its
+    /// k-th wait (radio calls and timer waits of the operation counted together from 0). A radio call has taken
+    /// effect when its wait is abandoned (the frame was handed over, the receiver configured); a receive window or
+    /// a timer wait is abandoned before anything is heard or the time has passed.
+    #[serde(default)]
+    pub cancel_at: Option<u16>,
 }
 
 #[derive(Clone, Debug, PartialEq, Eq, Serialize, Deserialize)]
@@ -606,6 +612,16 @@ fn simplify_txn(t: &Txn) -> Vec<Txn> {
         if k > 1 {
             let mut c = t.clone();
             c.rng_stuck = Some((v, k / 2));
+            out.push(c);
+        }
+    }
+    if let Some(k) = t.cancel_at {
+        let mut c = t.clone();
+        c.cancel_at = None;
+        out.push(c);
+        if k > 0 {
+            let mut c = t.clone();
+            c.cancel_at = Some(0);
             out.push(c);
         }
     }
